@@ -236,6 +236,33 @@ def replace (c : ZipCursor α) (x y : α) : Stat × Option (α × α) × ZipCurs
 def index (c : ZipCursor α) : Nat := wdec c.done1.length
 end ZipCursor
 
+/-- one call of the zip-iterator API -/
+inductive ZipCmd (α : Type) where
+  | next | remove | add (x y : α) | replace (x y : α) | index
+
+/-- what a zip call returns -/
+structure ZOut (α : Type) where
+  st  : Option Stat := none
+  val : Option (α × α) := none
+  num : Option Nat := none
+
+def ZipCursor.step (c : ZipCursor α) (cmd : ZipCmd α) (refusal : Option Stat := none) : ZOut α × ZipCursor α :=
+  match cmd with
+  | .next => let r := c.next; ({ st := some r.1, val := r.2.1 }, r.2.2)
+  | .remove => let r := c.remove; ({ st := some r.1, val := r.2.1 }, r.2.2)
+  | .add x y => match refusal with
+    | some s => ({ st := some s }, c)
+    | none => ({ st := some .ok }, c.add x y)
+  | .replace x y => let r := c.replace x y; ({ st := some r.1, val := r.2.1 }, r.2.2)
+  | .index => ({ num := some c.index }, c)
+
+def ZipCursor.run (c : ZipCursor α) : List (ZipCmd α) → List (Option Stat) → List (ZOut α) × ZipCursor α
+  | [], _ => ([], c)
+  | cmd :: cmds, rs =>
+    let r := c.step cmd (rs.headD none)
+    let t := ZipCursor.run r.2 cmds rs.tail
+    (r.1 :: t.1, t.2)
+
 /-! ## a zip cursor over one sequence on both sides (`ar1 == ar2`): positions only; each call is the
 ideal effect of the two half-calls performed one after the other on the same list.  `dflt` stands for
 an out-value the call leaves untouched (second half of `remove` with nothing left to remove). -/
